@@ -116,7 +116,9 @@ Definition all_zero (l : list nat) : bool := forallb (Nat.eqb 0) l.
 Definition non_check_in_group (p : plan) : bool :=
   existsb (fun a => match a_plugreg a with Some (true, _) => false | _ => true end) (check_actions p).
 
-(* first failing obligation; 0 = none.  Codes are listed in lib/props/c16.py. *)
+(* first failing obligation; 0 = none.  Codes are listed in lib/props/c16.py.  The comparison with the
+   specification (WF) comes before the comparison with the transcription: WF determines the verdict
+   completely, so a disagreement with it is a violation with this very plan as the failing input. *)
 Definition verdict (c : case) : nat :=
   let vp := match k_vplan c with Some v => v | None => k_plan c end in
   let spec_v := match vp with Some p => wfb p | None => false end in
@@ -125,12 +127,12 @@ Definition verdict (c : case) : nat :=
   let now := match k_stored c with Some sp => p_submit sp | None => 1%Z end in
   let '(w1, r) := submit test_supply (fun _ => true) now (k_regset c) w0 (k_plan c) in
   if Nat.eqb (k_validate c) 2 then 1 else
-  if negb (Nat.eqb (k_validate c) 3) && negb (Nat.eqb (k_validate c) (b2n (validate vp))) then 2 else
   if negb (Nat.eqb (k_validate c) 3) && negb (Nat.eqb (k_validate c) (b2n spec_v)) then 3 else
+  if negb (Nat.eqb (k_validate c) 3) && negb (Nat.eqb (k_validate c) (b2n (validate vp))) then 2 else
   if Nat.eqb (k_submit c) 2 then 4 else
   if Nat.eqb (k_submit c) 3 then 0 else
-  if negb (Nat.eqb (k_submit c) (b2n (is_some r))) then 5 else
   if negb (Nat.eqb (k_submit c) (b2n spec_s)) then 6 else
+  if negb (Nat.eqb (k_submit c) (b2n (is_some r))) then 5 else
   if Nat.eqb (k_submit c) 0 then
     (if all_zero (k_delta c) && negb (k_shrunk c) && negb (is_some (k_stored c)) then 0 else 7)
   else
